@@ -74,3 +74,25 @@ Theorem C12_member_lookup : forall l1 a l2 k fallible ty,
     = option_map ma_core (find_for (fun x => mc_ty (ma_core x)) (ma_ok k fallible) (l1 ++ a :: l2) ty).
 Proof. exact split_member_lookup. Qed.
 Print Assumptions C12_member_lookup.
+
+(* lifted to the generated code (Lemmas/ShortcutLift.v): writing a shortcut out as the single-kind instructions it stands for - same
+   arguments, same position - yields the same impls, token for token and in the same order; at type level (nothing the renderer
+   looks at depends on the list of trait instructions except the impl contexts, and those are equal as lists) and on any field of a
+   struct (every per-kind lookup, hence every resolved view, is unchanged) *)
+From O2o.Model Require Import Expand.
+From O2o.Lemmas Require Import ShortcutLift.
+
+Theorem C12_type_level_whole_impl : forall d l1 a l2,
+    d_attrs (dt_get_attrs d) = l1 ++ a :: l2 ->
+    data_type_impl (set_trait_attrs d (l1 ++ split_trait_attr a ++ l2)) = data_type_impl d.
+Proof. exact split_whole_impl. Qed.
+Print Assumptions C12_type_level_whole_impl.
+
+Theorem C12_member_level_whole_impl : forall s fs1 f fs2 l1 a l2,
+    s_fields s = fs1 ++ f :: fs2 -> m_attrs (f_attrs f) = l1 ++ a :: l2 ->
+    let f' := set_field_attrs f (l1 ++ split_member_attr a ++ l2) in
+    let s' := {| s_attrs := s_attrs s; s_ident := s_ident s; s_generics := s_generics s; s_fields := fs1 ++ f' :: fs2;
+                 s_named := s_named s; s_unit := s_unit s; s_where := s_where s |} in
+    data_type_impl (DStruct s') = data_type_impl (DStruct s).
+Proof. exact split_member_whole_impl. Qed.
+Print Assumptions C12_member_level_whole_impl.
